@@ -293,10 +293,21 @@ pub fn program_opts(data: &[u8], rebind_builtins: bool) -> (Program, Vec<&'stati
                 counter += 1;
                 let e = format!("ie{}", counter);
                 let k = rd.below(nmods);
+                // (the import of the finally block happens in a helper function: a name declared in a
+                // finally block that an exception entered is recorded finding E8)
+                let helper = format!("finload{}", counter);
+                main.push(fdef(
+                    &helper,
+                    &[],
+                    vec![
+                        Stmt::new(StmtKind::Import(paths[k].clone(), Some("finmod".to_string()))),
+                        Stmt::new(StmtKind::Return(Some(Expr::get(v("finmod"), "tag")))),
+                    ],
+                ));
                 let inner = Stmt::new(StmtKind::Try(
                     vec![Stmt::new(StmtKind::Import(paths[j].clone(), alias.clone())), Stmt::print(s("import in try block done"))],
                     None,
-                    Some(vec![Stmt::new(StmtKind::Import(paths[k].clone(), Some(format!("fin{}", counter)))), Stmt::print(s("finally block done"))]),
+                    Some(vec![Stmt::print(Expr::callv(&helper, vec![])), Stmt::print(s("finally block done"))]),
                 ));
                 main.push(Stmt::new(StmtKind::Try(
                     vec![inner, Stmt::print(s("after try/finally"))],
